@@ -18,6 +18,7 @@ class Report:
         self.seed = seed
         self.t0 = time.time()
         self.obs = []          # every obligation examined
+        self.pending_floors = []   # floors not reached: an analysis error unless some obligation failed (see failures())
         self.notes = []
         self.functions = set()
         self.rules = {}        # rule id -> one line description
@@ -83,13 +84,18 @@ class Report:
             # a finding, not a vacuous pass
             return
         if n < minimum:
-            raise AnalysisError("%s: only %d %s found, confirmed floor is %d "
-                                "(anchor moved or rule no longer matches)"
-                                % (rule, n, what, minimum))
+            # not raised on the spot: the other rules of the property still run, and if one of them reports a violation of
+            # the restructured code the verdict is that violation (exit 1), with the floor as a note; if nothing is reported
+            # the run is an analysis error (exit 2) - a vanished anchor is never a silent pass
+            self.pending_floors.append("%s: only %d %s found, confirmed floor is %d (anchor moved or rule no longer matches)"
+                                       % (rule, n, what, minimum))
 
     # -- finishing -------------------------------------------------------
     def failures(self):
-        return [o for o in self.obs if not o["ok"]]
+        fails = [o for o in self.obs if not o["ok"]]
+        if self.pending_floors and not fails:
+            raise AnalysisError(self.pending_floors[0])
+        return fails
 
     def finish(self):
         known = load_known()
@@ -114,10 +120,14 @@ class Report:
         with open(replay, "w") as fh:
             json.dump({"property": self.prop, "new": new,
                        "known": [o for o, _ in listed]}, fh, indent=1)
+        for msg in self.pending_floors:
+            print("NOTE (rule could not match its anchors) %s" % msg)
         for o in new:
             print("FINDING %s:%s %s [%s] %s :: %s -- %s" % (
                 o["file"] or "-", o["line"] or "-", o["function"], o["rule"],
                 o["instance"], o["construct"], o["detail"]))
+        if self.pending_floors and not new:
+            raise AnalysisError(self.pending_floors[0])
         self.write_evidence(len(new), len(listed))
         if new:
             print("VIOLATION property=%s replay=%s" % (self.prop, replay))
